@@ -19,6 +19,10 @@ CLAIMED = {
    text="tokenize's driver loop, the token cursor, every recursive-descent reader function, Read_str, READ, READWithPreamble and the printer are proved never to panic for every token array (any Value/Type satisfying the assumed scanner contract), with or without placeholder table and environment; termination is proved by decreases obligations: lexicographic (remaining tokens, rank) on the mutual recursion read_form/read_list/..., remaining tokens on read_list's loop, len(str) on the preamble loop.",
    note="A-SCAN (token contract of github.com/jig/scanner, incl. its termination) is assumed, as are the regexp facts stated as at-assumptions in the contract files and the marshaler.HashMap interface contract; byte-level claims rest on A-SCAN; printer termination on acyclic data is by structural recursion (not mechanised).",
    tech=TECH + "; obligation kinds nopanic/*, decreases, pre@callee, post, inv-*"),
+ "C14": dict(level="proof", ref="DESIGN.md §4 C14",
+   text="types.Equal_Q (the = builtin) is proved, for all pairs of values of any nesting, to return exactly the one-step structural equality EQdef of the statement (sequences element-wise, same key set and equal values for maps, same members for sets, kinds otherwise distinguished, scalars by value) with recursive calls abstracted by the uninterpreted EQ; reflexivity, symmetry and transitivity induction steps, kind separation, list/vector equality and string/keyword/symbol distinctness are proved as lemmas on the specification.",
+   note="M-IND/M-STRUCT: the fixpoint reading of EQ and the structural induction that lifts the lemma steps are meta-arguments; reflect.TypeOf is modelled as the dynamic-type tag; finite-map cardinality lemma is a library fact of the VC generator; values are assumed acyclic and unchanged during the comparison.",
+   tech=TECH + "; functional post-condition against a spec function, quantified loop invariants, visited-set ghost for map ranges, spec lemmas"),
 }
 
 NA_REASON_WIP = ("check under construction (the contract-based VC engine exists; this property's contracts are not wired yet): "
